@@ -402,21 +402,21 @@ type loopVerdict struct {
 
 // listed exceptions and known order-sensitive loops: key = function name + " over " + ranged expression
 var c06Listed = map[string]loopVerdict{
-	"(*converters/ingress.converter).syncPartial over ingMap":                                     {"S", "the collected ingresses are sorted by sortIngress before use; syncDefaultBackend runs for at most one key (the default-backend pseudo ingress)"},
+	"(*converters/ingress.converter).syncPartial over {map[string]*v1.Ingress}":                                     {"S", "the collected ingresses are sorted by sortIngress before use; syncDefaultBackend runs for at most one key (the default-backend pseudo ingress)"},
 	"(*converters/ingress/annotations.Mapper).AddAnnotations over ann":                            {"X", "per-key inserts into the mapper are keyed by the element; the appended conflict list is only rendered in a log line"},
 	"(*haproxy.config).SyncConfig over c.hosts.ItemsAdd()":                                        {"X", "under strict-host a root path is added to each host lacking one: this appends to the default backend's path list, whose positions only number internal path ids"},
 	"(*haproxy.config).WriteBackendMaps over c.backends.ItemsAdd()":                               {"X", "one pair of map files per backend; the order in which independent files are registered and written is irrelevant"},
 	"(*haproxy.config).WriteTCPServicesMaps over c.tcpservices.Items()":                           {"X", "one map file per tcp port: independent files"},
 	"(*haproxy.instance).writeCrtLists over i.config.TCPServices().Items()":                       {"X", "one crt-list file per tcp port: independent files"},
-	"(*converters/ingress.converter).fullSyncTCP over tcpPort.Hosts()":                            {"X", "UpdateTCPHostConfig writes the TLS entry keyed by this host's own name"},
+	"(*converters/ingress.converter).fullSyncTCP over {*types.TCPServicePort}.Hosts()":                            {"X", "UpdateTCPHostConfig writes the TLS entry keyed by this host's own name"},
 	"(*converters/ingress.converter).fullSyncAnnotations over c.haproxy.Backends().Items()":       {"X", "cross-element accesses of UpdateBackendConfig are: the used-auth-backend scan when the auth-proxy range is exhausted (port numbering is an internal label), the lookup of the auth service backend by id (reads nothing the loop writes), and the userlist acquire (idempotent: content is a function of the secret). The order-dependent oauth lookup is reported at its own loop (updater.findBackend)"},
 	"(*converters/ingress.converter).partialSyncAnnotations over c.haproxy.Backends().ItemsAdd()": {"X", "same as fullSyncAnnotations over the backends"},
 	"(*haproxy/types.HostsMap).rebuildMatchFiles over hm.rawhosts":                                {"X", "entries of different hosts never share a key (host#path): the order in which hosts create their priority files changes file numbering, not which entry a key matches"},
 	"(*haproxy/types.Hosts).FindTargetRedirect over h.items":                                      {"X", "at most one host can own a redirect source (buildHostRedirect refuses a second owner), so at most one element matches"},
 	"haproxy/types.buildAcmeStorages over items":                                                  {"S", "outer result is consumed by queue Add/Remove (a set); inner domain list is sorted"},
 	"(*haproxy/types.Backends).ShuffleAllEndpoints over b.items":                                  {"X", "random by option (--sort-endpoints-by=random)"},
-	"(*haproxy.dynUpdater).frontendUpdated over hosts":                                            {"X", "conjunction of per-host results; socket commands of distinct hosts are independent"},
-	"(*haproxy.dynUpdater).backendUpdated over backends":                                          {"X", "conjunction of per-backend results; socket commands of distinct backends are independent"},
+	"(*haproxy.dynUpdater).frontendUpdated over {map[string]*haproxy.hostPair}":                                            {"X", "conjunction of per-host results; socket commands of distinct hosts are independent"},
+	"(*haproxy.dynUpdater).backendUpdated over {map[string]*haproxy.backendPair}":                                          {"X", "conjunction of per-backend results; socket commands of distinct backends are independent"},
 }
 
 func c06MapRanges(c *core.Ctx) {
@@ -931,6 +931,39 @@ func rangeExprText(c *core.Ctx, lf loopFacts) string {
 				// go/ssa gives the Range instruction the position of the `for`... match by containment of X position
 				if rs.X.Pos() <= lf.rng.Pos() && lf.rng.Pos() <= rs.X.End() || rs.For == lf.rng.Pos() || rs.X.Pos() == lf.rng.Pos() {
 					found = types.ExprString(rs.X)
+					// an expression rooted at a local variable: name the root by its type, not by its (renameable) name
+					root := rs.X
+					for {
+						switch y := root.(type) {
+						case *ast.SelectorExpr:
+							root = y.X
+							continue
+						case *ast.CallExpr:
+							root = y.Fun
+							continue
+						case *ast.IndexExpr:
+							root = y.X
+							continue
+						}
+						break
+					}
+					if id, ok := root.(*ast.Ident); ok {
+						if p := c.ByPath[fn.Pkg.Pkg.Path()]; p != nil {
+							if obj, ok := p.TypesInfo.Uses[id].(*types.Var); ok && !obj.IsField() && obj.Parent() != obj.Pkg().Scope() {
+								isParam := false
+								for f := fn; f != nil; f = f.Parent() {
+									for _, q := range f.Params {
+										if q.Object() == obj {
+											isParam = true
+										}
+									}
+								}
+								if !isParam {
+									found = "{" + types.TypeString(obj.Type(), func(p *types.Package) string { return p.Name() }) + "}" + found[len(id.Name):]
+								}
+							}
+						}
+					}
 				}
 			}
 			return true
@@ -938,6 +971,14 @@ func rangeExprText(c *core.Ctx, lf loopFacts) string {
 	}
 	if found == "" {
 		return core.Key(lf.rng.X)
+	}
+	// the text names parameters and receivers: use their reviewed names so that a rename does not change the key
+	for f := fn; f != nil; f = f.Parent() {
+		for _, p := range f.Params {
+			if alias := core.ParamName(p); alias != p.Name() {
+				found = replaceIdent(found, p.Name(), alias)
+			}
+		}
 	}
 	return found
 }
@@ -1172,4 +1213,20 @@ func dependsOnLoop(v ssa.Value, lf loopFacts) bool {
 		return false
 	}
 	return walk(v, 0)
+}
+
+// replaceIdent replaces whole-word occurrences of an identifier in an expression text.
+func replaceIdent(text, from, to string) string {
+	var sb strings.Builder
+	isId := func(b byte) bool { return b == '_' || b >= '0' && b <= '9' || b >= 'a' && b <= 'z' || b >= 'A' && b <= 'Z' }
+	for i := 0; i < len(text); {
+		if strings.HasPrefix(text[i:], from) && (i == 0 || !isId(text[i-1]) && text[i-1] != '.') && (i+len(from) == len(text) || !isId(text[i+len(from)])) {
+			sb.WriteString(to)
+			i += len(from)
+			continue
+		}
+		sb.WriteByte(text[i])
+		i++
+	}
+	return sb.String()
 }
